@@ -82,6 +82,11 @@ func zzBuild(kind int) *zzScenario {
 		sc.commits = append(sc.commits, c)
 		sc.tables = append(sc.tables, sum)
 		sc.tbls = append(sc.tbls, tbl)
+	case 3: // chain of four; commits 1 and 3 carry the same table, commit 2 has a two-block table
+		add(zzRows(2, "x"), "one", 1600000000)
+		add(zzRows(3, "y"), "two", 1600000100, 0)
+		add(zzRows(256, "x"), "three", 1600000200, 1)
+		add(zzRows(3, "y"), "four", 1600000300, 2)
 	}
 	return sc
 }
@@ -254,5 +259,182 @@ func Harness_C07_missing_parent() {
 	}
 	zzverif.Assert("commit-with-missing-parent-refused", refused)
 	zzverif.Assert("commit-with-missing-parent-not-stored", !objects.CommitExist(dst, last.Sum))
+	zzverif.Reach("end")
+}
+
+// The same exchange for ANY state of the destination: an ancestor-closed set of
+// commits it already has (they are the common commits), for every other table
+// whether it is already there in full (and if so whether the negotiation
+// acknowledged it, so that the sender leaves it out, or not, so that it arrives a
+// second time), and for tables that are not there which of their blocks are.
+func Harness_C07_sendrecv_any() {
+	sc := zzBuild(zzverif.Param("scenario", 0))
+	dst := zzrepo.NewObjStore()
+	n := len(sc.commits)
+	idx := map[string]int{}
+	for i, c := range sc.commits {
+		idx[string(c.Sum)] = i
+	}
+	had := make([]bool, n)
+	var common [][]byte
+	for i := 0; i < n-1; i++ {
+		if zzverif.Bool("dstHasCommit") {
+			ok := true
+			for _, p := range sc.commits[i].Parents {
+				if !had[idx[string(p)]] {
+					ok = false
+				}
+			}
+			zzverif.Assume(ok)
+			had[i] = true
+			zzCopyCommit(dst, sc, i)
+			common = append(common, sc.commits[i].Sum)
+		}
+	}
+	tables := map[string]struct{}{}
+	tableThere := map[string]bool{}
+	for i := 0; i < n; i++ {
+		if had[i] {
+			tableThere[string(sc.tables[i])] = true
+		}
+	}
+	var toSend []*objects.Commit
+	for i := 0; i < n; i++ {
+		if had[i] {
+			continue
+		}
+		toSend = append(toSend, sc.commits[i])
+		t := string(sc.tables[i])
+		if _, seen := tables[t]; seen || tableThere[t] {
+			if !tableThere[t] {
+				continue
+			}
+			// the table is at the destination already (through a commit it has): the
+			// negotiation may or may not have acknowledged it
+			if !zzverif.Bool("tableAcked") {
+				tables[t] = struct{}{}
+			}
+			continue
+		}
+		if zzverif.Bool("dstHasTable") {
+			zzCopyTable(dst, sc, i)
+			tableThere[t] = true
+			if !zzverif.Bool("tableAcked") {
+				tables[t] = struct{}{}
+			}
+			continue
+		}
+		tables[t] = struct{}{}
+		for k, b := range sc.tbls[i].Blocks {
+			if k < 2 && zzverif.Bool("dstHasBlock") {
+				zzrepo.CopyKey(dst, sc.src, "blk/"+string(b))
+			}
+		}
+	}
+	before := map[string][]byte{}
+	for k, v := range dst.M {
+		before[k] = v
+	}
+	max := zzverif.Uint64("maxPackfileSize")
+	sender, err := NewObjectSender(sc.src, toSend, tables, common, max)
+	zzverif.Assert("sender-created", err == nil)
+	if err != nil {
+		return
+	}
+	var order []string
+	recv := NewObjectReceiver(dst, [][]byte{sc.commits[n-1].Sum}, logr.Discard(), WithReceiverSaveObjectHook(func(t int, sum []byte) {
+		order = append(order, fmt.Sprintf("%d/%s", t, string(sum)))
+	}))
+	packs := 0
+	for {
+		packs++
+		if packs > 60 {
+			zzverif.Assert("transfer-terminates", false)
+			return
+		}
+		buf := bytes.NewBuffer(nil)
+		done, _, err := sender.WriteObjects(buf, nil)
+		zzverif.Assert("sender-no-error", err == nil)
+		if err != nil {
+			return
+		}
+		pr, err := packfile.NewPackfileReader(io.NopCloser(bytes.NewReader(buf.Bytes())))
+		zzverif.Assert("packfile-readable", err == nil)
+		if err != nil {
+			return
+		}
+		rdone, err := recv.Receive(pr, nil)
+		zzverif.Assert("receiver-accepts-what-sender-sends", err == nil)
+		if err != nil {
+			return
+		}
+		if done {
+			zzverif.Assert("receiver-done-when-sender-done", rdone)
+			break
+		}
+		zzverif.Assert("receiver-not-done-before-last-commit", !rdone)
+	}
+	for i := 0; i < n; i++ {
+		for _, p := range []string{"com/" + string(sc.commits[i].Sum), "tbl/" + string(sc.tables[i])} {
+			a, okA := sc.src.M[p]
+			b, okB := dst.M[p]
+			zzverif.Assert("object-present-at-destination", okA && okB)
+			zzverif.Assert("object-bytes-identical", bytes.Equal(a, b))
+		}
+		for k, blk := range sc.tbls[i].Blocks {
+			a := sc.src.M["blk/"+string(blk)]
+			b, ok := dst.M["blk/"+string(blk)]
+			zzverif.Assert("block-present-and-identical", ok && bytes.Equal(a, b))
+			ia := sc.src.M["blkidx/"+string(sc.tbls[i].BlockIndices[k])]
+			ib, ok := dst.M["blkidx/"+string(sc.tbls[i].BlockIndices[k])]
+			zzverif.Assert("block-index-rebuilt-identically", ok && bytes.Equal(ia, ib))
+		}
+		ta := sc.src.M["tblidx/"+string(sc.tables[i])]
+		tb, ok := dst.M["tblidx/"+string(sc.tables[i])]
+		zzverif.Assert("table-index-rebuilt-identically", ok && bytes.Equal(ta, tb))
+	}
+	for k, v := range before {
+		if strings.HasPrefix(k, "tblsum/") {
+			continue
+		}
+		zzverif.Assert("nothing-the-destination-had-is-changed", bytes.Equal(dst.M[k], v))
+	}
+	for k := range dst.M {
+		_, ok := sc.src.M[k]
+		zzverif.Assert("no-foreign-object-at-destination", ok || strings.HasPrefix(k, "tblsum/"))
+	}
+	pos := map[string]int{}
+	for i, o := range order {
+		if _, dup := pos[o]; dup {
+			zzverif.Assert("no-object-saved-twice", false)
+		}
+		pos[o] = i + 1
+	}
+	for i := 0; i < n; i++ {
+		if had[i] {
+			continue
+		}
+		cp := pos[fmt.Sprintf("%d/%s", packfile.ObjectCommit, string(sc.commits[i].Sum))]
+		zzverif.Assert("commit-was-received", cp > 0)
+		for _, p := range sc.commits[i].Parents {
+			if had[idx[string(p)]] {
+				continue
+			}
+			pp := pos[fmt.Sprintf("%d/%s", packfile.ObjectCommit, string(p))]
+			zzverif.Assert("parent-before-child", pp > 0 && pp < cp)
+		}
+		tp := pos[fmt.Sprintf("%d/%s", packfile.ObjectTable, string(sc.tables[i]))]
+		if tp > 0 {
+			for _, blk := range sc.tbls[i].Blocks {
+				bp := pos[fmt.Sprintf("%d/%s", packfile.ObjectBlock, string(blk))]
+				if bp > 0 {
+					zzverif.Assert("block-before-its-table", bp < tp)
+				}
+			}
+		}
+	}
+	if packs > 1 {
+		zzverif.Reach("several-packfiles")
+	}
 	zzverif.Reach("end")
 }
